@@ -35,7 +35,7 @@ Definition obs_init_ts (o : list out) : option N :=
    initiation it is pinned down (up to whitening) by the observed timestamp. *)
 Definition eff_now (c : cstep) : N :=
   match e_body (c_ev c), obs_init_ts (o_out (c_obs c)) with
-  | BTun _ _, Some ts => N.max (e_now (c_ev c)) (unstamp (of_val ts))
+  | BTun _ _, Some ts | BInitiate _ _, Some ts => N.max (e_now (c_ev c)) (unstamp (of_val ts))
   | _, _ => e_now (c_ev c)
   end.
 
@@ -132,7 +132,8 @@ Definition check_cases (ks : list case) (ts : list tcase) (az : list acase) : li
    12 response accepted     13 tun -> initiation       14 tun -> spacing blocks
    15 tun -> transport      16 shift                   17 restart
    18 ambiguous flood steps 19 tun for unknown peer  20 valid MAC1 under load -> cookie reply
-   21 under-load toggles    22 dropped at gate / MAC1 while under load *)
+   21 under-load toggles    22 dropped at gate / MAC1 while under load
+   23 concurrent SendHandshakeInitiation burst -> one initiation   24 burst blocked by spacing *)
 Definition classify (st : state) (e : event) : nat :=
   match e_body e with
   | BMsg src m =>
@@ -170,6 +171,7 @@ Definition classify (st : state) (e : event) : nat :=
   | BShift _ _ => 16%nat
   | BRestart => 17%nat
   | BLoad _ => 21%nat
+  | BInitiate p _ => if e_now e - last_sent (peers st p) <? RekeyTimeout then 24%nat else 23%nat
   end.
 
 Fixpoint bump (l : list N) (i : nat) : list N :=
@@ -189,7 +191,7 @@ Fixpoint stats_steps (cfg : list (N * N * N)) (st : state) (cs : list cstep) (h 
   end.
 
 Definition stats (ks : list case) : list N :=
-  fold_left (fun h k => stats_steps (c_cfg k) (init (c_cfg k) (c_now0 k)) (c_steps k) h) ks (repeat 0 23).
+  fold_left (fun h k => stats_steps (c_cfg k) (init (c_cfg k) (c_now0 k)) (c_steps k) h) ks (repeat 0 25).
 
 (* ------------------------------------------- builders used by case files *)
 (* Every number in a generated case file is a primitive-int literal. *)
@@ -222,6 +224,7 @@ Definition bt (p inner : Uint63.int) : body := BTun (I p) (I inner).
 Definition bs (p d : Uint63.int) : body := BShift (I p) (I d).
 Definition br : body := BRestart.
 Definition bl (on : bool) : body := BLoad on.
+Definition bi (p k : Uint63.int) : body := BInitiate (I p) (I k).
 Definition cs (lo hi oidx : Uint63.int) (b : body) (o : obs) : cstep :=
   {| c_ev := {| e_now := I lo; e_oidx := I oidx; e_body := b |}; c_hi := I hi; c_obs := o |}.
 Definition pc (k psk ep : Uint63.int) : N * N * N := (I k, I psk, I ep).
